@@ -1,0 +1,88 @@
+//go:build verif
+
+package cache
+
+import (
+	"time"
+
+	"github.com/bluele/gcache"
+	"github.com/miekg/dns"
+)
+
+// verifC04Clock is a [gcache.Clock] that runs offset() ahead of the real one.
+type verifC04Clock struct {
+	offset func() (d time.Duration)
+}
+
+// Now implements the [gcache.Clock] interface for verifC04Clock.
+func (c verifC04Clock) Now() (now time.Time) { return time.Now().Add(c.offset()) }
+
+// verifC04Cache wraps the real LRU cache.  The inner cache uses the shifted
+// clock for its expiry decisions.  Items store the real time of insertion, so
+// Get moves the stamp of the returned copy back by the amount the shifted clock
+// has advanced since the insertion: the age seen by fromCacheItem is the real
+// elapsed time plus the injected advance.
+type verifC04Cache struct {
+	gcache.Cache
+
+	offset func() (d time.Duration)
+	ins    map[any]time.Duration
+}
+
+// SetWithExpire implements the [gcache.Cache] interface for *verifC04Cache.
+func (c *verifC04Cache) SetWithExpire(key, val any, exp time.Duration) (err error) {
+	c.ins[key] = c.offset()
+
+	return c.Cache.SetWithExpire(key, val, exp)
+}
+
+// Get implements the [gcache.Cache] interface for *verifC04Cache.
+func (c *verifC04Cache) Get(key any) (val any, err error) {
+	val, err = c.Cache.Get(key)
+	if err != nil {
+		return val, err
+	}
+
+	if item, ok := val.(cacheItem); ok {
+		item.when = item.when.Add(-(c.offset() - c.ins[key]))
+
+		return item, nil
+	}
+
+	return val, nil
+}
+
+// VerifC04NewMiddleware is [NewMiddleware] with a clock that runs offset()
+// ahead of the real clock, both for the expiry of the LRU cache and for the age
+// of the cached items.
+func VerifC04NewMiddleware(c *MiddlewareConfig, offset func() (d time.Duration)) (m *Middleware) {
+	m = NewMiddleware(c)
+	m.cache = &verifC04Cache{
+		Cache:  gcache.New(c.Count).LRU().Clock(verifC04Clock{offset: offset}).Build(),
+		offset: offset,
+		ins:    map[any]time.Duration{},
+	}
+
+	return m
+}
+
+// VerifC04Evict removes the entry that req would hit, if any, as a capacity
+// eviction could.
+func VerifC04Evict(m *Middleware, req *dns.Msg) (ok bool) { return m.cache.Remove(toCacheKey(req)) }
+
+// VerifC04ToCacheKey exports toCacheKey.
+func VerifC04ToCacheKey(msg *dns.Msg) (k string) { return toCacheKey(msg) }
+
+// VerifC04IsCacheable exports isCacheable.
+func VerifC04IsCacheable(msg *dns.Msg) (ok bool) { return isCacheable(msg) }
+
+// VerifC04FindLowestTTL exports findLowestTTL.
+func VerifC04FindLowestTTL(msg *dns.Msg) (ttl uint32) { return findLowestTTL(msg) }
+
+// VerifC04FromCacheItem calls fromCacheItem for an item holding msg that was
+// cached age ago.
+func VerifC04FromCacheItem(msg, req *dns.Msg, age time.Duration) (resp *dns.Msg) {
+	m := &Middleware{}
+
+	return m.fromCacheItem(cacheItem{msg: msg, when: time.Now().Add(-age)}, req)
+}
